@@ -1,17 +1,17 @@
 #!/bin/bash
-# ingest_seed.sh <prop> <srcdir> <name> <pkg dir relative to teamserver> : confirm a seeded change and store it under /verif/seeded/<name>
+# ingest_seed.sh <prop> <srcdir> <name> <pkg dir relative to teamserver> [<-run pattern>] : confirm a seeded change and store it under /verif/seeded/<name>
 set -u
-prop=$1; src=$2; name=$3; pkg=$4
+prop=$1; src=$2; name=$3; pkg=$4; run=${5:-.}
 export GOFLAGS=-mod=mod GOPROXY=off GOSUMDB=off GOTOOLCHAIN=local
 S=$(mktemp -d /var/tmp/hvc-seed.XXXXXX)
 mkdir -p $S/repo && cp -r /repo/teamserver $S/repo/teamserver
 cp $src/demo_test.go $S/repo/teamserver/$pkg/zz_demo_test.go
 cd $S/repo/teamserver
 go build ./... >/dev/null 2>&1 || { echo "build fails on clean copy"; }
-clean=$(go test -vet=off -count=1 -timeout 120s ./$pkg/ 2>&1 | tail -3 | tr '\n' ' ')
+clean=$(go test -vet=off -count=1 -timeout 120s -run "$run" ./$pkg/ 2>&1 | tail -3 | tr '\n' ' ')
 (cd $S/repo && patch -p1 -s < $src/patch.diff) || { echo "PATCH DOES NOT APPLY"; rm -rf $S; exit 1; }
 go build ./... 2>&1 | tail -3
-mut=$(go test -vet=off -count=1 -timeout 120s ./$pkg/ 2>&1 | tail -3 | tr '\n' ' ')
+mut=$(go test -vet=off -count=1 -timeout 120s -run "$run" ./$pkg/ 2>&1 | tail -3 | tr '\n' ' ')
 echo "clean:   $clean"; echo "mutated: $mut"
 mkdir -p /verif/seeded/$name
 cp $src/patch.diff /verif/seeded/$name/patch.diff
